@@ -799,7 +799,7 @@ class Sim:
 
     # ------------------------------------------------------------------ runs
     def run(self, policy=None, max_steps=3000, schedule=None,
-            after=None, before=None) -> bool:
+            after=None, before=None, cont=False) -> bool:
         """Run to quiescence.  Returns True when quiescent."""
         policy = policy or Policy.uniform()
         i = 0
@@ -807,6 +807,8 @@ class Sim:
             en = self.enabled()
             if not en:
                 return True
+            if schedule is not None and i >= len(schedule) and cont:
+                schedule = None      # prefix replayed: go on with the policy
             if schedule is not None:
                 if i >= len(schedule):
                     return False
